@@ -181,27 +181,43 @@ func (c *FnCtx) storeAnchor(in *ssa.Store, p Val, l location, v Val) {
 	})
 }
 
+// miscOrd: source-order ordinal of a builtin/map-update site (dynamic counter for sites inside inlined callees).
+func (c *FnCtx) miscOrd(kind string, in ssa.Instruction, cc *ssa.CallCommon) int {
+	if in != nil {
+		if n, ok := c.miscOrdOf[in]; ok && len(c.inlineStack) == 0 {
+			return n
+		}
+	}
+	if cc != nil {
+		if n, ok := c.miscOrdCC[cc]; ok && len(c.inlineStack) == 0 {
+			return n
+		}
+	}
+	c.storeOrd[kind]++
+	return 1000 + c.storeOrd[kind]
+}
+
 func (c *FnCtx) mapStoreAnchor(in *ssa.MapUpdate, m Val, key string, v Val) {
-	c.storeOrd["mapupdate"]++
-	c.anchorAsserts(fmt.Sprintf("mapupdate#%d", c.storeOrd["mapupdate"]), func(env *Env) {
+	c.anchorAsserts(fmt.Sprintf("mapupdate#%d", c.miscOrd("mapupdate", in, nil)), func(env *Env) {
 		env.names["value"] = v
 		env.names["themap"] = m
 	})
 }
 func (c *FnCtx) mapDeleteAnchor(res *ssa.Call, m Val, key string) {
-	c.storeOrd["mapdelete"]++
-	c.anchorAsserts(fmt.Sprintf("mapdelete#%d", c.storeOrd["mapdelete"]), func(env *Env) { env.names["themap"] = m })
+	var in ssa.Instruction
+	if res != nil {
+		in = res
+	}
+	c.anchorAsserts(fmt.Sprintf("mapdelete#%d", c.miscOrd("mapdelete", in, nil)), func(env *Env) { env.names["themap"] = m })
 }
 func (c *FnCtx) appendAnchor(cc *ssa.CallCommon, s, t Val) {
-	c.storeOrd["append"]++
-	c.anchorAsserts(fmt.Sprintf("append#%d", c.storeOrd["append"]), func(env *Env) {
+	c.anchorAsserts(fmt.Sprintf("append#%d", c.miscOrd("append", nil, cc)), func(env *Env) {
 		env.names["dst"] = s
 		env.names["src"] = t
 	})
 }
 func (c *FnCtx) copyAnchor(cc *ssa.CallCommon, d, s Val, n string) {
-	c.storeOrd["copy"]++
-	c.anchorAsserts(fmt.Sprintf("copy#%d", c.storeOrd["copy"]), func(env *Env) {
+	c.anchorAsserts(fmt.Sprintf("copy#%d", c.miscOrd("copy", nil, cc)), func(env *Env) {
 		env.names["dst"] = d
 		env.names["src"] = s
 	})
